@@ -31,6 +31,8 @@ def copy_demo(src, wt):
             rel = os.path.relpath(os.path.join(dp, fn), src)
             if "__" in fn and os.path.dirname(rel) == "":
                 rel = fn.replace("__", "/")  # path encoded in the file name
+            elif os.path.dirname(rel) == "" and fn.endswith("_test.go") and open(os.path.join(dp, fn)).read().lstrip().startswith("package cog"):
+                pass  # a test of the root package
             elif os.path.dirname(rel) == "":
                 continue  # no destination known: the demo command copies it itself
             dst = os.path.join(wt, rel)
